@@ -433,7 +433,8 @@ prop("C09", title="Commodity conversion uses the right price",
                 "on one pair with two dated prices and a symbolic query day uses the most recent price on or before that day, none if all "
                 "are later; (4) on three commodities with a direct price and a two-step chain (symbolic sources, dates, rates, query day) "
                 "it picks the chain the statement ranks first, multiplies the rates along it, and finds no rate when no usable chain "
-                "exists. Outside: the sort of same-pair records by date in build_naive, parsing of the price DB, more than two steps / "
+                "exists; (5) posting_price_event: the price a posting with cost / lot feeds into the store (cost, else lot; per unit or for the "
+                "quantity paid). Outside: the sort of same-pair records by date in build_naive, parsing of the price DB, more than two steps / "
                 "competing chains of equal length (staleness as the deciding criterion is covered only through Distance's ordering), "
                 "reverse edges in the search graph, Ledger::eval's plumbing.",
      level_note="Trusted: Kani/CBMC; verif_map (capacity 2), verif_heap, verif_dec (products exact; quotients exact when exact), insertion-sort "
@@ -473,6 +474,14 @@ H("C09", file="core/price_db.rs", name="c09_chain_3", timeout=2700, expect_s=570
         "search loop <= 5 pops, neighbour loop <= 2, binary search <= 1 step", models=[DEC, MAP, HEAP, SORT, FMT, BUMP],
   oracle="only prices dated <= query day count; direct vs chain ranked by (ledger-derived steps, steps); chain rate = product; "
          "no usable chain => no rate")
+
+for nm, exp in (("cost_total", 125), ("lot_and_cost", 180)):
+    H("C09", file="core/book_keeping.rs", name="c01_valuation_" + nm, timeout=1500, expect_s=exp, recursion=REC0, map_cap=3,
+      functions=["posting_price_event", "ComputedPosting::compute_from_syntax", "Exchange::try_from_syntax"],
+      bound="one posting `v X` with annotation %s; 16-bit values, all signs and zeros; unwind 6" % nm,
+      models=[FMT, DEC, MAP, BUMP, RECNOTE],
+      oracle="the ledger-derived price event: none without annotation; the written cost, else the lot price; per-unit prices for 1 X, "
+             "total prices for |v| X; dated by the transaction")
 
 # --------------------------------------------------------------------------- C16
 prop("C16", title="CSV import books each row with the right sign, amount and balance",
